@@ -257,6 +257,18 @@ fn check_against_spec(secp: &Secp256k1<elements::secp256k1_zkp::All>, info: &Tap
             fail.set("outkey-mismatch", "output key is not internal key + H_TapTweak(internal || root) G".into()); },
         None => fail.set("outkey-mismatch", "independent tweak failed".into()),
     }
+    // the other public routes to the same output key: TaprootSpendInfo::new_key_spend, Script::new_v1_p2tr, Address::p2tr — each must
+    // name the key computed independently above (OP_1 PUSH32 <x-only output key>; witness version 1, 32-byte program)
+    if let Some((q, par)) = Scalar::from_be_bytes(t).ok().and_then(|sc| p.add_tweak(secp, &sc).ok()) {
+        let ks = TaprootSpendInfo::new_key_spend(secp, p, info.merkle_root());
+        if ks.output_key().into_inner() != q || ks.output_key_parity() != par || ks.internal_key() != p || ks.merkle_root() != info.merkle_root() || !ks.as_script_map().is_empty() {
+            fail.set("new-key-spend-mismatch", "TaprootSpendInfo::new_key_spend(internal key, merkle root) does not carry the tweaked output key / parity / root (or invents leaves)".into()); }
+        let mut want_spk = vec![0x51u8, 0x20]; want_spk.extend_from_slice(&q.serialize());
+        if Script::new_v1_p2tr(secp, p, info.merkle_root()).as_bytes() != &want_spk[..] { fail.set("p2tr-script-mismatch", "Script::new_v1_p2tr is not OP_1 <32-byte output key>".into()); }
+        if Script::new_v1_p2tr_tweaked(info.output_key()).as_bytes() != &want_spk[..] { fail.set("p2tr-script-mismatch", "Script::new_v1_p2tr_tweaked is not OP_1 <32-byte output key>".into()); }
+        let a = elements::Address::p2tr(secp, p, info.merkle_root(), None, &elements::AddressParams::ELEMENTS);
+        if a.script_pubkey().as_bytes() != &want_spk[..] || a.blinding_pubkey.is_some() { fail.set("p2tr-address-mismatch", "Address::p2tr does not pay to OP_1 <32-byte output key>".into()); }
+    }
     let want: BTreeSet<(Vec<u8>, u8, Vec<[u8; 32]>)> = leaves.iter().cloned().collect();
     let mut got = BTreeSet::new();
     for ((s, v), set) in info.as_script_map() { for b in set { got.insert((s.as_bytes().to_vec(), v.as_u8(), b.as_inner().iter().map(|h| h.to_byte_array()).collect::<Vec<_>>())); } }
